@@ -109,7 +109,7 @@ Qed.
 
 Lemma sums_ok_stake s v d a fz bal h m pb ff : sums_ok s -> sums_ok (fst (do_stake s v d a fz bal h m pb ff)).
 Proof.
-  intros Hs. unfold do_stake. destruct (negb (amount_ok a)); [exact Hs|].
+  intros Hs. unfold do_stake. destruct (negb (validate_stake a bal)); [exact Hs|]. destruct (negb (amount_ok a)); [exact Hs|].
   destruct fz; [exact Hs|]. destruct (stake_update s v d h m); [|exact Hs].
   destruct (bal - debit_of a <? 0); [exact Hs|]. destruct pb; [exact Hs|]. destruct ff; [exact Hs|].
   simpl. eapply (sums_ok_delta s _ v d a); try reflexivity. exact Hs.
@@ -117,7 +117,7 @@ Qed.
 
 Lemma sums_ok_unstake s v d a fz ro h m pb ff : sums_ok s -> sums_ok (fst (do_unstake s v d a fz ro h m pb ff)).
 Proof.
-  intros Hs. unfold do_unstake. destruct (negb (amount_ok a)); [exact Hs|].
+  intros Hs. unfold do_unstake. destruct (negb (validate_unstake s v d a)); [exact Hs|]. destruct (negb (amount_ok a)); [exact Hs|].
   destruct fz; [exact Hs|]. destruct ro; [exact Hs|].
   destruct (minus3_cases s v d a) as [E|[[s1 E]|[[s1 E]|[s3 [E (E1 & E2 & E3 & _)]]]]]; rewrite E; try exact Hs.
   destruct (vrecs s !! v); [|exact Hs]. destruct pb; [exact Hs|]. destruct ff; [exact Hs|].
@@ -126,7 +126,7 @@ Qed.
 
 Lemma sums_ok_withdraw s v d a fz ff : sums_ok s -> sums_ok (fst (do_withdraw s v d a fz ff)).
 Proof.
-  intros Hs. unfold do_withdraw. destruct (negb (amount_ok a)); [exact Hs|].
+  intros Hs. unfold do_withdraw. destruct (negb (validate_unstake s v d a)); [exact Hs|]. destruct (negb (amount_ok a)); [exact Hs|].
   destruct fz; [exact Hs|]. destruct (zget (dbnd s) d - a <? 0); [exact Hs|]. destruct ff; [exact Hs|].
   simpl. eapply sums_ok_ext; [| | |exact Hs]; reflexivity.
 Qed.
@@ -185,7 +185,8 @@ Theorem frozen_no_effect s v d a bal h m ro pb ff :
   step s (OUnstake v d a true ro h m pb ff) = (s, false) /\
   step s (OWithdraw v d a true ff) = (s, false).
 Proof.
-  simpl. unfold do_stake, do_unstake, do_withdraw. destruct (negb (amount_ok a)); repeat split.
+  simpl. unfold do_stake, do_unstake, do_withdraw.
+  destruct (negb (validate_stake a bal)), (negb (validate_unstake s v d a)), (negb (amount_ok a)); repeat split.
 Qed.
 
 (* ---------- C11_maturity (step level) ---------- *)
@@ -195,7 +196,7 @@ Theorem unstake_entry s v d a ro h m pb ff s' :
   step s (OUnstake v d a false ro h m pb ff) = (s', true) ->
   mat s' = <[h + m := mat_at s (h + m) ++ [(d, a)]]> (mat s) /\ dbnd s' = dbnd s.
 Proof.
-  simpl. unfold do_unstake. destruct (negb (amount_ok a)); [discriminate|]. destruct ro; [discriminate|].
+  simpl. unfold do_unstake. destruct (negb (validate_unstake s v d a)); [discriminate|]. destruct (negb (amount_ok a)); [discriminate|]. destruct ro; [discriminate|].
   destruct (minus3_cases s v d a) as [E|[[s1 E]|[[s1 E]|[s3 [E (_ & _ & _ & Eb & Em & _)]]]]]; rewrite E; try discriminate.
   destruct (vrecs s !! v); [|discriminate]. destruct pb; [discriminate|]. destruct ff; [discriminate|].
   intros Heq. inversion Heq; subst; clear Heq. simpl. unfold mat_at. simpl. rewrite Em, Eb. split; reflexivity.
@@ -208,14 +209,14 @@ Theorem withdrawable_not_growing_in_tx s o d' :
   zget (dbnd (fst (step s o))) d' <= zget (dbnd s) d'.
 Proof.
   intros Hk. destruct o; try contradiction; simpl.
-  - unfold do_stake. destruct (negb (amount_ok a)); [simpl; lia|].
+  - unfold do_stake. destruct (negb (validate_stake a bal)); [simpl; lia|]. destruct (negb (amount_ok a)); [simpl; lia|].
     destruct frozen; [simpl; lia|]. destruct (stake_update s v d h m); [|simpl; lia].
     destruct (bal - debit_of a <? 0); [simpl; lia|]. destruct purge_block; [simpl; lia|]. destruct fee_fail; simpl; lia.
-  - unfold do_unstake. destruct (negb (amount_ok a)); [simpl; lia|].
+  - unfold do_unstake. destruct (negb (validate_unstake s v d a)); [simpl; lia|]. destruct (negb (amount_ok a)); [simpl; lia|].
     destruct frozen; [simpl; lia|]. destruct req_open; [simpl; lia|].
     destruct (minus3_cases s v d a) as [E|[[s1 E]|[[s1 E]|[s3 [E (_ & _ & _ & Eb & _)]]]]]; rewrite E; try (simpl; lia).
     destruct (vrecs s !! v); [|simpl; lia]. destruct purge_block; [simpl; lia|]. destruct fee_fail; simpl; [lia|]. rewrite Eb. lia.
-  - unfold do_withdraw. destruct (negb (amount_ok a)) eqn:Ea; [simpl; lia|].
+  - unfold do_withdraw. destruct (negb (validate_unstake s v d a)); [simpl; lia|]. destruct (negb (amount_ok a)) eqn:Ea; [simpl; lia|].
     destruct frozen; [simpl; lia|]. destruct (zget (dbnd s) d - a <? 0); [simpl; lia|].
     destruct fee_fail; simpl; [lia|]. unfold amount_ok in Ea.
     rewrite zget_zadd. destruct (decide (d = d')) as [->|]; lia.
@@ -228,7 +229,10 @@ Theorem out_of_range_rejected s v d a fz bal h m ro pb ff :
   step s (OStake v d a fz bal h m pb ff) = (s, false) /\
   step s (OUnstake v d a fz ro h m pb ff) = (s, false) /\
   step s (OWithdraw v d a fz ff) = (s, false).
-Proof. intros Ha. simpl. unfold do_stake, do_unstake, do_withdraw. rewrite Ha. simpl. repeat split. Qed.
+Proof.
+  intros Ha. simpl. unfold do_stake, do_unstake, do_withdraw. rewrite Ha. simpl.
+  destruct (negb (validate_stake a bal)), (negb (validate_unstake s v d a)); repeat split.
+Qed.
 
 (* ---------- C11_withdraw_bounded : conservation + non-negativity, all histories ---------- *)
 Definition conserved (s : state) : Prop :=
@@ -316,7 +320,7 @@ Qed.
 
 Lemma inv_stake s v d a fz bal h m pb ff : inv s -> inv (fst (do_stake s v d a fz bal h m pb ff)).
 Proof.
-  intros Hs. unfold do_stake. destruct (amount_ok a) eqn:Ea; simpl; [|exact Hs].
+  intros Hs. unfold do_stake. destruct (negb (validate_stake a bal)); [exact Hs|]. destruct (amount_ok a) eqn:Ea; simpl; [|exact Hs].
   destruct fz; [exact Hs|]. destruct (stake_update s v d h m); [|exact Hs].
   destruct (bal - debit_of a <? 0); [exact Hs|]. destruct pb; [exact Hs|]. destruct ff; [exact Hs|].
   destruct Hs as (HC & (Hd & Hb & Hm) & HB). simpl.
@@ -332,7 +336,7 @@ Qed.
 
 Lemma inv_unstake s v d a fz ro h m pb ff : inv s -> inv (fst (do_unstake s v d a fz ro h m pb ff)).
 Proof.
-  intros Hs. unfold do_unstake. destruct (amount_ok a) eqn:Ea; simpl; [|exact Hs].
+  intros Hs. unfold do_unstake. destruct (negb (validate_unstake s v d a)); [exact Hs|]. destruct (amount_ok a) eqn:Ea; simpl; [|exact Hs].
   destruct fz; [exact Hs|]. destruct ro; [exact Hs|].
   destruct (minus3 s v d a) as [s1 n] eqn:E. destruct (minus3_frame _ _ _ _ _ _ E) as (Fb & Fm & F1 & F2 & F3 & F4 & F5 & Fd).
   destruct n as [|[|[|[|n]]]]; try exact Hs.
@@ -359,7 +363,7 @@ Qed.
 
 Lemma inv_withdraw s v d a fz ff : inv s -> inv (fst (do_withdraw s v d a fz ff)).
 Proof.
-  intros Hs. unfold do_withdraw. destruct (amount_ok a) eqn:Ea; simpl; [|exact Hs].
+  intros Hs. unfold do_withdraw. destruct (negb (validate_unstake s v d a)); [exact Hs|]. destruct (amount_ok a) eqn:Ea; simpl; [|exact Hs].
   destruct fz; [exact Hs|]. destruct (zget (dbnd s) d - a <? 0) eqn:Eb; [exact Hs|]. destruct ff; [exact Hs|].
   destruct Hs as (HC & (Hd & Hb & Hm) & HB). simpl.
   assert (debit_of a = a * base) as Edeb by (unfold debit_of; rewrite wrap64_small by exact Ea; reflexivity).
